@@ -138,6 +138,80 @@ impl World {
     }
 }
 
+/// A structurally valid (empty) PCZT: what every simulated migration transaction stores, so that the engine's real
+/// prove functions, which parse the stored artifact, can be used.
+fn valid_pczt() -> &'static Vec<u8> {
+    static P: std::sync::OnceLock<Vec<u8>> = std::sync::OnceLock::new();
+    P.get_or_init(|| {
+        let branch: u32 = zcash_protocol::consensus::BranchId::Nu6_3.into();
+        pczt::roles::creator::Creator::new(branch, 10_000_000, 133, None, None).expect("creator").build().expect("pczt").serialize().expect("bytes")
+    })
+}
+
+/// The proving capability the consumer supplies to `prove_transfer` / `prove_preparation`: answers from the simulated
+/// chain, and checks (C17) the anchor the engine hands it.
+struct SimProver {
+    interval: AnchorBucketInterval,
+    activation: u32,
+    scanned: u32,
+    /// about the transaction being proved
+    nullifiers: Vec<[u8; 32]>,
+    /// highest mined height among its dependencies, as the wallet's scan knows it (None: a dependency is not scanned mined)
+    funding: Option<Option<u32>>,
+    spent_nullifier: Option<[u8; 32]>,
+    inject_other_error: bool,
+    complaint: Option<String>,
+    anchors_seen: u64,
+}
+
+impl zcash_pool_migration::engine::MigrationProver for SimProver {
+    type Error = String;
+    fn prove_transfer(&mut self, pczt: pczt::Pczt, anchor_boundary: BlockHeight) -> Result<pczt::Pczt, zcash_pool_migration::engine::ProveFailure<String>> {
+        use zcash_pool_migration::engine::ProveFailure;
+        self.anchors_seen += 1;
+        let a = u32::from(anchor_boundary);
+        let step = self.interval.block_count().get();
+        if a % step != 0 || a <= self.activation {
+            self.complaint = Some(format!("the anchor boundary {a} handed to the prover is not a grid boundary (interval {step}) above the activation height {}", self.activation));
+        }
+        if let Some(Some(f)) = self.funding {
+            if f > a {
+                self.complaint = Some(format!("the anchor boundary {a} handed to the prover predates the funding note, created at {f}: no witness exists at that boundary"));
+            }
+        }
+        if self.inject_other_error {
+            return Err(ProveFailure::Other("zsim: injected prover failure".into()));
+        }
+        if let Some(nf) = self.spent_nullifier {
+            return Err(ProveFailure::InputNotAvailable { nullifier: nf, as_of: BlockHeight::from_u32(self.scanned) });
+        }
+        if matches!(self.funding, Some(None)) {
+            // the funding note is not among the wallet's notes yet
+            return Err(ProveFailure::InputNotAvailable { nullifier: self.nullifiers.first().copied().unwrap_or([0; 32]), as_of: BlockHeight::from_u32(self.scanned) });
+        }
+        Ok(pczt)
+    }
+    fn prove_preparation(&mut self, pczt: pczt::Pczt, _anchor: BlockHeight) -> Result<pczt::Pczt, zcash_pool_migration::engine::ProveFailure<String>> {
+        use zcash_pool_migration::engine::ProveFailure;
+        if self.inject_other_error {
+            return Err(ProveFailure::Other("zsim: injected prover failure".into()));
+        }
+        if let Some(nf) = self.spent_nullifier {
+            return Err(ProveFailure::InputNotAvailable { nullifier: nf, as_of: BlockHeight::from_u32(self.scanned) });
+        }
+        if matches!(self.funding, Some(None)) {
+            return Err(ProveFailure::InputNotAvailable { nullifier: self.nullifiers.first().copied().unwrap_or([0; 32]), as_of: BlockHeight::from_u32(self.scanned) });
+        }
+        Ok(pczt)
+    }
+    fn anchor_bucket_interval(&self) -> AnchorBucketInterval {
+        self.interval
+    }
+    fn lock_spent_notes(&mut self, _pczt: &pczt::Pczt, _lock_expiry_height: BlockHeight) -> Result<Option<zcash_pool_migration::engine::MigrationLockOwner>, String> {
+        Ok(None)
+    }
+}
+
 /// In-memory store + the real SQLite store for every save/load.
 struct SimStore<'a> {
     mem: Option<MigrationState>,
@@ -430,7 +504,7 @@ impl MigScenario {
             txs.push(MigrationTransaction::from_parts(
                 MigrationTransferId::new(id),
                 MigrationTxKind::Preparation { layer: layer as _, index: i },
-                r.bytes32().to_vec(),
+                valid_pczt().clone(),
                 pdeps,
                 *h,
                 scheduling::expiry_height(*h),
@@ -455,7 +529,7 @@ impl MigScenario {
             txs.push(MigrationTransaction::from_parts(
                 MigrationTransferId::new(id),
                 MigrationTxKind::Transfer { crossing: i },
-                r.bytes32().to_vec(),
+                valid_pczt().clone(),
                 deps,
                 s.broadcast_height(),
                 s.expiry_height(),
@@ -925,6 +999,70 @@ impl Scenario for MigScenario {
             }};
         }
 
+        // The consumer's side of a Prove step: the engine's real prove functions over the simulated prover. Engine-built
+        // states carry parseable artifacts; arbitrary generator states do not, and keep the plain "store a proof" path.
+        let prove_net = full_net(Some(_activation.max(1)));
+        let iv_committed = state.anchor_bucket_interval();
+        macro_rules! prove_one {
+            ($t:expr, $inject:expr) => {{
+                let t: &MigrationTransaction = $t;
+                let id = t.id();
+                if use_arb {
+                    let proven = ProvedTransaction::from_parts(id, t.pczt().clone());
+                    store.store_proved_transaction(&mut state, proven).is_ok()
+                } else {
+                    let w: &World = unsafe { &*store.world };
+                    let dep_mined: Vec<Option<u32>> = t
+                        .depends_on()
+                        .iter()
+                        .map(|d| state.transactions().iter().find(|x| x.id() == *d).and_then(|x| match x.state() {
+                            MigrationTxState::Mined { height, .. } => Some(u32::from(height)),
+                            _ => None,
+                        }))
+                        .collect();
+                    let funding = if dep_mined.is_empty() { None } else if dep_mined.iter().all(|x| x.is_some()) { Some(dep_mined.iter().flatten().copied().max()) } else { Some(None) };
+                    let spent_nullifier = t.spend_nullifiers().iter().copied().find(|nf| w.foreign_spent.get(nf).map(|h| *h <= w.scanned).unwrap_or(false));
+                    let mut prover = SimProver { interval: iv_committed, activation: _activation, scanned: w.scanned, nullifiers: t.spend_nullifiers().clone(), funding, spent_nullifier, inject_other_error: $inject, complaint: None, anchors_seen: 0 };
+                    let scanned_tip = BlockHeight::from_u32(w.scanned);
+                    let is_transfer = matches!(t.kind(), MigrationTxKind::Transfer { .. });
+                    let r = catch(|| {
+                        if is_transfer {
+                            zcash_pool_migration::engine::prove_transfer(&prove_net, &mut prover, &mut state, id, scanned_tip, &mut rng).map_err(|e| format!("{e}"))
+                        } else {
+                            zcash_pool_migration::engine::prove_preparation(&mut prover, &mut state, id, scanned_tip).map_err(|e| format!("{e}"))
+                        }
+                    });
+                    ctx.oracle_n("prover_anchor_is_witnessable", prover.anchors_seen);
+                    if let Some(c) = prover.complaint.take() {
+                        return self.v(ctx, true, Violation::new("prover_anchor_is_witnessable", format!("{id:?}: {c}; {}", summarize_tx(t))));
+                    }
+                    match r {
+                        Err(m) => {
+                            if m.contains("rng draw budget") {
+                                return self.v(ctx, true, Violation::new("rejection_sampling_terminates", m));
+                            }
+                            return self.v(ctx, false, Violation::keyed("no_panic", format!("panic:{}", crate::runner::panic_site(&m)), format!("prove_transfer / prove_preparation panicked: {m}")));
+                        }
+                        Ok(Err(e)) => {
+                            ctx.event(format!("proving {id:?} failed: {e}"));
+                            ctx.shape("prove_err");
+                            true
+                        }
+                        Ok(Ok(zcash_pool_migration::engine::ProveOutcome::Proved(p))) => store.store_proved_transaction(&mut state, p).is_ok(),
+                        Ok(Ok(zcash_pool_migration::engine::ProveOutcome::NotYetProvable)) => {
+                            ctx.probe("prove_not_yet_provable");
+                            // a boundary re-draw may have happened: worth persisting
+                            store.replace_migration(&state).is_ok()
+                        }
+                        Ok(Ok(zcash_pool_migration::engine::ProveOutcome::MarkedUnsatisfiable { .. })) => {
+                            ctx.probe("prove_marked_unsatisfiable");
+                            store.replace_migration(&state).is_ok()
+                        }
+                    }
+                }
+            }};
+        }
+
         for ev in 0..n_events {
             if !ch.more() || surfaced_end {
                 break;
@@ -948,8 +1086,11 @@ impl Scenario for MigScenario {
                                     if matches!(t.kind(), MigrationTxKind::Transfer { .. }) && world.scanned >= u32::from(t.scheduled_height()) {
                                         ctx.probe("proved_at_or_after_broadcast_height");
                                     }
-                                    let proven = ProvedTransaction::from_parts(p.id(), t.pczt().clone());
-                                    if store.store_proved_transaction(&mut state, proven).is_err() {
+                                    let inject = !fault_free && ch.chance("prove.other_error", 1, 12);
+                                    if inject {
+                                        ctx.fault("prover_error");
+                                    }
+                                    if !prove_one!(&t, inject) {
                                         ctx.fault("store_error@call");
                                         if let Ok(Some(s)) = store.get_migration() {
                                             state = s;
@@ -1304,10 +1445,15 @@ impl Scenario for MigScenario {
                 match step {
                     AdvanceStep::Prove { transactions } => {
                         idle = 0;
+                        let proved_before = state.transactions().iter().filter(|t| matches!(t.state(), MigrationTxState::Proved)).count();
                         for p in transactions {
                             if let Some(t) = state.transactions().iter().find(|t| t.id() == p.id()).cloned() {
-                                let _ = store.store_proved_transaction(&mut state, ProvedTransaction::from_parts(p.id(), t.pczt().clone()));
+                                let _ = prove_one!(&t, false);
                             }
+                        }
+                        // "not yet provable: retry after further sync" — the chain moves on
+                        if state.transactions().iter().filter(|t| matches!(t.state(), MigrationTxState::Proved)).count() == proved_before {
+                            world.mine_block(ctx);
                         }
                     }
                     AdvanceStep::Broadcast { id } => {
@@ -1465,7 +1611,7 @@ impl Scenario for MigScenario {
         vec!["broadcast_offered", "rollback_unmined", "replan_surfaced", "rebuild_surfaced", "reevaluate_surfaced", "completed_after_faults", "complete_reverted_by_rollback"]
     }
     fn fault_kinds(&self) -> Vec<&'static str> {
-        vec!["reorg", "foreign_spend", "store_error@call", "broadcast_rejected", "broadcast_rejected_already_known", "broadcast_lost_record", "never_mined", "wallet_sleep", "scan_lag", "clock_skew", "clock_jump", "party_restart"]
+        vec!["reorg", "foreign_spend", "store_error@call", "broadcast_rejected", "broadcast_rejected_already_known", "broadcast_lost_record", "prover_error", "never_mined", "wallet_sleep", "scan_lag", "clock_skew", "clock_jump", "party_restart"]
     }
     fn time_note(&self) -> &'static str {
         "simulated time = blocks mined in the discrete-event world (the block height is the clock)"
